@@ -19,6 +19,7 @@ int main(int argc, char** argv)
         Cow* cow = x.make<Cow>("cow", Cell(0L, Cell::Temp{}));  // the initial version is Cell instance 1
         vrt::g_cell.loudLife = true;        // from now on construction / destruction of versions are steps
         vrt::g_cell.quietCtor = true;
+        vrt::g_cell.copyThrowsLeft = (int)x.param("copythrows", 0);  // C20: the payload's copy constructor may throw inside lock()
         static const std::vector<const char*> names{"write_commit", "write_cancel", "write_move_commit", "snap_read", "snap_hold", "try_snap", "write_move_stale_cancel"};
         int tid = 0;
         for (auto& menus : vrt::parse_prog(x.rt.cfg.prog)) {
@@ -42,7 +43,7 @@ int main(int argc, char** argv)
                     vrt::log_ev("call", names[(size_t)op], 0, wr ? digit : 0);
                     long r = 0;
                     if (wr) {
-                        {
+                        try {
                             auto h = cow->lock();
                             vrt::log_ev("wget", "cell", h->id, h->peek());
                             if (op == 2 || op == 6) {
@@ -61,7 +62,10 @@ int main(int argc, char** argv)
                                 } else vrt::log_ev("wrel", "cell", h->id, 1);
                             }
                         }
-                        vrt::log_ev("wdone", "cell", 0);  // the write handle is gone: commit / cancel completed
+                        catch (const vrt::CellThrow&) {
+                            r = -2;  // lock() threw: no handle, nothing published, the writer lock must be free again
+                        }
+                        if (r != -2) vrt::log_ev("wdone", "cell", 0);  // the write handle is gone: commit / cancel completed
                     } else {
                         auto s = (op == 5) ? cow->try_lock_shared() : cow->lock_shared();
                         vrt::log_ev("sget", "cell", s->id);
